@@ -60,6 +60,8 @@ KEY_NEGGEN = "C08:generic-layout-negative-delta-zero-extended:sevm-array-hash-mi
 KEY_DOWN = "C08:generic-layout-unrecognised-hash-constant-plus-index:sevm-array-downward-bucket-crossing"
 KEY_NESTPACK = "C08:solidity-layout-nested-packed-keys-same-total-width-share-cell:sevm-string-string-mapping"
 KEY_NESTPACK_G = "C08:generic-layout-nested-packed-keys-same-total-width-share-cell:sevm-string-string-mapping"
+KEY_LARGE = "C08:large-preimage-hash-not-tracked:sevm-bytes-key-preimage-over-128-bytes"
+REPORT_LARGE_PREIMAGE = False   # the documented limitation (sha3_data: "skip tracking hashes with large preimages") is counted, not reported
 KEY_TAXIOM = "C08:solidity-layout-transient-emptiness-axiom-constrains-symbolic-persistent-storage:sevm-mapping"
 KEY_PACKED = "C08:packed-key-concrete-preimage-decoded-as-scalar:sevm-bytes1-key"
 
@@ -67,6 +69,7 @@ W = 1 << 256
 SCRATCH = 0x00
 OUT = 0x200
 CDBUF = 0x800
+KEYBUF = 0x500      # long (bytes / string) mapping keys are laid out here before hashing
 ACCOUNTS = {"A": 0x1000, "B": 0x2000, "C": 0x3000}     # A = evmdiff.MAIN
 
 
@@ -87,6 +90,13 @@ def ev_expr(e, args):
     t = e[0]
     if t == "c":
         return e[1] % W
+    if t == "words":    # ("words", key_bytes, (w0, w1, …)): a bytes/string key laid out in memory, the last word possibly partial
+        kb, ws = e[1], e[2]
+        out = b""
+        for i, w in enumerate(ws):
+            r = min(32, kb - 32 * i)
+            out += (ev_expr(w, args) % (1 << (8 * r))).to_bytes(r, "big")
+        return int.from_bytes(out, "big")
     if t == "a":
         return args[e[1]] % W
     if t == "and":
@@ -118,6 +128,8 @@ def slot_of(loc, args):
 
 
 def expr_symbolic(e):
+    if e[0] == "words":
+        return any(expr_symbolic(w) for w in e[2])
     return e[0] == "a" or (e[0] in ("and", "mul", "addc") and expr_symbolic(e[1]))
 
 
@@ -139,7 +151,7 @@ def hashes_of(loc, out):
     t = loc[0]
     if t == "map":
         hashes_of(loc[2], out)
-        if not loc_symbolic(loc):
+        if not loc_symbolic(loc) and loc[3] + 32 <= 128:
             out.add(slot_of(loc, ()))
     elif t == "arr":
         hashes_of(loc[1], out)
@@ -158,6 +170,8 @@ def loc_kinds(loc, out):
         out.add("symbolic-slot")
     elif t == "map":
         out.add("mapping" if loc[3] == 32 else "packed-key")
+        if loc[3] > 32:
+            out.add(f"long-key-preimage-{loc[3] + 32}")
         if loc[2][0] != "lit":
             out.add("nested")
         loc_kinds(loc[2], out)
@@ -201,6 +215,12 @@ def emit_loc(loc):
         return [("push", slot_of(loc, ()), 32)]
     if t == "map":
         kb = loc[3]
+        if loc[1][0] == "words":
+            items = emit_loc(loc[2])
+            for i, w in enumerate(loc[1][2]):
+                r = min(32, kb - 32 * i)
+                items += emit_expr(w) + ([("push", 256 - 8 * r), "SHL"] if r < 32 else []) + [("push", KEYBUF + 32 * i), "MSTORE"]
+            return items + [("push", KEYBUF + kb), "MSTORE", ("push", kb + 32), ("push", KEYBUF), "SHA3"]
         items = emit_loc(loc[2]) + emit_expr(loc[1])
         if kb == 32:
             return items + [("push", SCRATCH), "MSTORE", ("push", SCRATCH + 32), "MSTORE", ("push", 64), ("push", SCRATCH), "SHA3"]
@@ -284,7 +304,8 @@ class Prog:
 # ---------------------------------------------------------------------------------------------------------------------
 # random typed layouts and locations
 # ---------------------------------------------------------------------------------------------------------------------
-KEY_BYTES = [32, 32, 32, 32, 1, 4, 20, 31]
+KEY_BYTES = [32, 32, 32, 32, 32, 1, 4, 20, 31, 64, 95, 96]      # 64 / 95 / 96: bytes keys with a 96 / 127 / 128-byte hash preimage
+CONCRETE_PACKED_OK = None      # does /repo split a fully concrete packed preimage (the repair of KEY_PACKED)? set by correspond
 
 
 def gen_type(rng, depth):
@@ -370,7 +391,13 @@ class LocGen:
                 return cur
             if t == "map":
                 key = self.key_expr()
-                if ty[1] != 32 and not expr_symbolic(key) and self.nargs:
+                if ty[1] > 32:
+                    nw = (ty[1] + 31) // 32
+                    ws = tuple(("a", r.randrange(self.nargs)) if (self.nargs and r.random() < 0.5) else ("c", r.choice([0, 1, 2])) for _ in range(nw))
+                    if not CONCRETE_PACKED_OK and self.nargs and not any(expr_symbolic(w) for w in ws):
+                        ws = (("a", r.randrange(self.nargs)),) + ws[1:]
+                    key = ("words", ty[1], ws)
+                elif ty[1] != 32 and not expr_symbolic(key) and self.nargs:
                     # a packed key whose whole preimage is concrete is decoded as a scalar slot (known finding
                     # KEY_PACKED, replayed by the directed corpus): generated packed keys are symbolic
                     key = ("a", r.randrange(self.nargs))
@@ -430,6 +457,28 @@ class LocGen:
             return ("arr", self.render(loc[1]))
         if t == "off":
             return ("off", self.render(loc[1]), loc[2], loc[3])
+        return loc
+
+    def respell(self, loc):
+        """the same element through another spelling of its keys: symbolic words ↔ small constants (equal for inputs from
+        the colliding domain {0,1,2}); a fully concrete key makes the hash a constant for halmos"""
+        r = self.rng
+        t = loc[0]
+        if t == "map":
+            key = loc[1]
+            flip = lambda w: (("c", r.choice([0, 1, 2])) if expr_symbolic(w) else ("a", r.randrange(self.nargs))) if (self.nargs and r.random() < 0.5) else w
+            if key[0] == "words":
+                ws = tuple(flip(w) for w in key[2])
+                if not CONCRETE_PACKED_OK and not any(expr_symbolic(w) for w in ws):
+                    ws = key[2]
+                key = ("words", key[1], ws)
+            elif loc[3] == 32 and key[0] in ("a", "c"):
+                key = flip(key)
+            return ("map", key, self.respell(loc[2]), loc[3])
+        if t == "arr":
+            return ("arr", self.respell(loc[1]))
+        if t == "off":
+            return ("off", self.respell(loc[1]), loc[2], loc[3])
         return loc
 
     def below(self, loc):
@@ -509,7 +558,10 @@ def gen_program(rng, pool):
         # reuse an earlier location (possibly rendered differently) with high probability: aliasing needs collisions
         if locs and rng.random() < 0.45:
             base = rng.choice(locs)
-            loc = g.render(strip_const(base))
+            loc = strip_const(base)
+            if rng.random() < 0.4:
+                loc = g.respell(loc)
+            loc = g.render(loc)
             if rng.random() < 0.12:
                 loc = g.below(loc) or loc
         else:
@@ -887,6 +939,9 @@ def real_decode(D, sevm, ex, loc, pe, layout):
     return " ".join(["ok", f"{slot:x}"] + [f"{k.size()}:{pe.word(k):x}" for k in keys])
 
 
+ctx_count_unknown = [0]
+
+
 def model_requests(D, sr, p, pe, layout, variant):
     """(lines, expected replies, descriptions) for one path under one input"""
     from halmos.sevm import StorageRead, StorageWrite
@@ -903,7 +958,10 @@ def model_requests(D, sr, p, pe, layout, variant):
         import z3 as _z3
         for t, v in ex.path.concretization.substitution.items():     # what int_of knows on this path
             if _z3.is_bv(t) and _z3.is_bv_value(v) and not str(t.decl().name()).startswith("f_sha3_"):
-                regs.append(f"c:{v.as_long():x} {ser(t)}")
+                try:
+                    regs.append(f"c:{v.as_long():x} {ser(t)}")
+                except D.Unknown:
+                    ctx_count_unknown[0] += 1
         reg = ";".join(regs) or "-"
         terms = [ser(e.slot) for e in trace]
         expected = [real_decode(D, sr.sevm, ex, e.slot, pe, layout) for e in trace]
@@ -1033,6 +1091,40 @@ def branch_prefix_cases():
     ]
 
 
+def long_key(pre, words, base=("lit", 3)):
+    """mapping(bytes => …) element whose hash preimage key ‖ slot is `pre` bytes"""
+    return ("map", ("words", pre - 32, tuple(words)), base, pre - 32)
+
+
+def long_key_case(pre, transient=False, name=None):
+    """one element through both spellings: key words all concrete (halmos folds the hash to a constant) and first word
+    symbolic (a0), pinned equal by the input and, later, by the path: store-through-one / load-through-the-other, overwrite"""
+    nw = (pre - 32 + 31) // 32
+    cw = [("c", 0x1111 * (i + 1)) for i in range(nw)]
+    # the symbolic word is the LAST key word: halmos merges adjacent concrete memory chunks, and a concrete last word would
+    # be fused with the slot into one constant (Concat(a0, <key tail ‖ slot>): refused by the solidity layout, fail-safe)
+    last = cw[-1][1] % (1 << (8 * (pre - 32 - 32 * (nw - 1))))
+    conc = long_key(pre, cw)
+    symb = long_key(pre, cw[:-1] + [("a", 0)])
+    other = long_key(pre, cw[:-1] + [("c", last ^ 1)])
+    st, ld = ("tstore", "tload") if transient else ("sstore", "sload")
+    return Prog([(st, symb, ("c", 0x2222)), (ld, conc), (ld, other),
+                 (st, other, ("c", 0x3333)), (st, conc, ("c", 0x1111)), (ld, symb), (st, symb, ("c", 0x4444)), (ld, conc), (ld, other),
+                 ("require_eq", ("a", 0), last), (ld, conc), (ld, symb), (st, conc, ("c", 0x5555)), (ld, symb)], 1,
+                name=name or f"long-key-preimage-{pre}-both-spellings" + ("-transient" if transient else ""))
+
+
+def nested_long_key_case():
+    """mapping(bytes => mapping(uint => uint)) with a 96-byte outer key (128-byte preimage), inner key symbolic / concrete"""
+    cw = [("c", 7), ("c", 8), ("c", 2)]      # last word from the colliding input domain {0,1,2}
+    inner = lambda w: long_key(128, cw[:2] + [w], ("lit", 2))
+    el = lambda w0, k: ("map", k, inner(w0), 32)
+    return Prog([("sstore", el(("a", 0), ("a", 1)), ("c", 0x61)), ("sload", el(("c", 2), ("c", 1))), ("sload", el(("c", 2), ("a", 1))),
+                 ("tstore", el(("c", 2), ("c", 1)), ("c", 0x62)), ("tload", el(("a", 0), ("a", 1))),
+                 ("sstore", el(("c", 2), ("c", 1)), ("c", 0x63)), ("sload", el(("a", 0), ("a", 1))), ("sload", inner(("a", 0))), ("sload", el(("c", 8), ("c", 1)))], 2,
+                name="long-key-preimage-128-nested-mapping")
+
+
 def three_ways_cases():
     out = []
     # mapping element with a struct-member offset: runtime hash + 1, 1 + runtime hash, PUSH32 (hash + 1)
@@ -1081,6 +1173,14 @@ def core_directed():
     out.append((packed_concrete_case(), KEY_PACKED))
     for p in branch_prefix_cases():
         out.append((p, None))
+    # bytes keys around the 128-byte preimage limit of sha3_data's hash tracking
+    out.append((long_key_case(128), None))
+    out.append((nested_long_key_case(), None))
+    out.append((long_key_case(128, transient=True), None))
+    out.append((long_key_case(96), None))
+    out.append((long_key_case(127), None))
+    out.append((long_key_case(129), KEY_LARGE))
+    out.append((long_key_case(160, transient=True), KEY_LARGE))
     # negative deltas: constants just below a hash (table constant, locally registered hash, mapping hash)
     a2, a300, m10 = ("arr", ("lit", 2)), ("arr", ("lit", 300)), ("map", ("c", 1), ("lit", 0), 32)
     out.append((neg_const_case(a2, [1, 2, 8], "below-hash-constants-array-slot-2"), None))
@@ -1630,8 +1730,10 @@ def correspond(ctx):
     t_probes = time.time() - t_start
     pool = sorted(set(harvest_literals()) | {0, 1, 2, 3, 5, 17573, 143, 193, 0xFFFF, 0x10000, (1 << 64) - 1, 1 << 64, W - 1})
     ctx.extra["harvested_literals"] = len(pool)
+    global CONCRETE_PACKED_OK
+    CONCRETE_PACKED_OK = packed_literal_split()
     model_variant = variant if variant in ("current", "fixed") else "current"
-    if packed_literal_split():
+    if CONCRETE_PACKED_OK:
         model_variant += "+packed"      # /repo carries the repair of KEY_PACKED: the model uses normalizeMSplit
     ctx.extra["model_variant"] = model_variant
 
@@ -1713,7 +1815,9 @@ def correspond(ctx):
                 expect = KEY_NEGGEN     # generated (hash - k) + i in the generic layout: the known zero-extension finding
             if mism:
                 info = mism[0]
-                if expect and (variant != "fixed" or not expect.startswith(KEY_OM)) and info["kind"] == "loaded-value":
+                if expect == KEY_LARGE and not REPORT_LARGE_PREIMAGE and info["kind"] == "loaded-value":
+                    ctx.count("large-preimage:spellings-differ(documented: hashes of preimages > 128 bytes are not tracked)")
+                elif expect and (variant != "fixed" or not expect.startswith(KEY_OM)) and info["kind"] == "loaded-value":
                     expected_seen.setdefault(expect, []).append((prog, layout, info))
                 else:
                     kinds = ",".join(sorted(prog.kinds()))
@@ -1745,6 +1849,9 @@ def correspond(ctx):
                         "sload(keccak(0x01 ‖ 4)) returns 0 (EVM 0x66): a hash whose whole preimage is concrete comes back from reverse_lookup as "
                         "f_sha3_264(<constant>), which decode does not split (it expects a Concat), so the location becomes the scalar cell at "
                         "the literal hash instead of (4, key, 0)",
+            KEY_LARGE: "sha3_data returns the hash of a concrete preimage longer than 128 bytes as a bare constant without registering it, so the "
+                       "element of mapping(bytes => uint) reached with a concrete 97-byte key is a scalar slot while the same element reached with a "
+                       "symbolic key decodes to the mapping cell: store through one spelling, load through the other returns 0 / a stale value",
             KEY_NEGGEN: "generic layout: sstore((keccak(2) - 1) + i, 0x77) — the compiler's a[i - 1] — then on the path i == 3 "
                         "sload(PUSH32 (keccak(2) + 2)) returns 0 (EVM 0x77): reverse_lookup gives keccak(2) + (2^256 - 1) and GenericStorage.add_all "
                         f"zero-extends that 256-bit negative delta to the 513-bit decoded width, so (hash - 1) + i never wraps back to hash + (i - 1) "
